@@ -186,6 +186,16 @@ def main(argv=None):
         cases = [rec["case"]]
     else:
         cases = mod.cases(tier, seed)
+        # the thorough tier repeats the generators with further seeds (deterministic corner lists and the suite case are kept once)
+        reps = int(os.environ.get("VERIF_THOROUGH_REPS", str(getattr(mod, "THOROUGH_REPS", 3)))) if tier == "thorough" else 1
+        seen = {json.dumps(c, sort_keys=True, default=str) for c in cases}
+        for rep in range(1, reps):
+            for c in mod.cases(tier, seed + 7919 * rep):
+                k = json.dumps(c, sort_keys=True, default=str)
+                if k in seen or c.get("kind") == "suite":
+                    continue
+                seen.add(k)
+                cases.append(c)
     for c in cases:
         c.setdefault("kind", "default")
     batch_timeout = getattr(mod, "BATCH_TIMEOUT", {"quick": 900, "thorough": 3600})[tier]
